@@ -46,6 +46,13 @@ def tweak_box(p, kind: str, rng):
         p.lb = -s * rng.uniform(0.1, 3, size=n)
         p.ub = s * rng.uniform(0.1, 3, size=n)
         p.x0 = rng.uniform(p.lb, p.ub) * 10 ** rng.uniform(-2, 0, size=n)
+    elif kind == "far":
+        # boxes far from the origin whose width is tiny RELATIVE to their position (1e-7..5e-6): the sides are
+        # distinct numbers and the objective varies noticeably across them
+        c = rng.choice([-1.0, 1.0], size=n) * 10 ** rng.uniform(2, 4, size=n)
+        w = np.abs(c) * 10 ** rng.uniform(-7, -5.3, size=n)
+        p.lb, p.ub = c - w, c + w
+        p.x0 = rng.uniform(p.lb, p.ub)
     p.x0 = np.clip(p.x0, p.lb, p.ub)
     return p
 
@@ -174,6 +181,27 @@ def evaluate(case: Dict[str, Any]) -> Dict[str, Any]:
                 out["prop"].append({"what": f"objective value of the {mode} run differs from the exact-gradient run beyond the accuracy of the scheme",
                                     "key": "", "detail": {"f_fd": ff, "f_exact": fe, "tol": tol, "msg_fd": r.message, "msg_exact": E.result.message}})
             out["tags"].append("compared_with_exact=True")
+    # narrow / far boxes: a variable that the exact-gradient run drives onto a bound, the gradient pushing
+    # outward there, must end on the same bound in the finite-difference run
+    if p.convex and case.get("tweak") in ("narrow", "far") and mode != "cs":
+        kwE, _, _ = build(case)
+        kwE["jac"] = p.grad
+        E = Run(kwE).execute()
+        if E.exc is None and not E.nonfinite() and "PGTOL" in E.result.message and r.success:
+            xe, xf = np.asarray(E.result.x, dtype=float), np.asarray(r.x, dtype=float)
+            ge = np.atleast_1d(p.grad(xe.copy()))
+            gs = float(np.max(np.abs(ge))) or 1.0
+            strong = np.abs(ge) > 1e-3 * gs
+            onl = (xe == p.lb) & (ge > 0) & strong & (p.lb != p.ub)
+            onu = (xe == p.ub) & (ge < 0) & strong & (p.lb != p.ub)
+            badi = [int(i) for i in np.where((onl & (xf != p.lb)) | (onu & (xf != p.ub)))[0]]
+            if badi:
+                i = badi[0]
+                out["prop"].append({"what": f"{mode} run leaves a variable inside a narrow box where the exact-gradient run drives it onto a bound "
+                                            "(objective values differ beyond the accuracy of the scheme)", "key": "",
+                                    "detail": {"i": i, "x_fd": float(xf[i]), "x_exact": float(xe[i]), "lb": float(p.lb[i]), "ub": float(p.ub[i]),
+                                               "g_i": float(ge[i]), "f_fd": float(r.fun), "f_exact": float(E.result.fun)}})
+            out["tags"].append("narrow_compared_with_exact=True")
     if r.nit >= 1:
         out["nontrivial"] = f"{case['seed']}:{mode}:{case.get('tweak')}:{case.get('epsilon')}:{case.get('finite_diff_rel_step')}"
     if case["seed"] % 53 == 0:
@@ -202,6 +230,9 @@ def run(tier: str, seed: int) -> int:
             c["tweak"] = "narrow"
         elif k == 8:
             c["tweak"] = "micro"
+        elif k == 9:
+            c["tweak"] = "far"
+            c["override"]["gtol"] = 1e-5
         e = r.choice([None, None, None, 1e-6, 1e-10, 1e-3])
         rs = r.choice([None, None, None, 1e-6, 1e-3])
         if mode != "none":
